@@ -181,12 +181,12 @@ class PhyDomain(Registry):
     def is_packet_compat(self, packet) -> bool:
         """Determine if a packet is a compatible BLE packet
         """
-        return isinstance(packet.metadata, PhyMetadata)
+        return isinstance(getattr(packet, "metadata", None), PhyMetadata)
 
     def convert_packet(self, packet) -> HubMessage:
         """Convert a Phy packet to SendPdu or SendBlePdu message.
         """
-        if isinstance(packet.metadata, PhyMetadata):
+        if isinstance(getattr(packet, "metadata", None), PhyMetadata):
             if packet.metadata.raw:
                 return PhyDomain.bound('send_raw', self.proto_version).from_packet(
                     packet
